@@ -66,6 +66,16 @@ DETECTED = {
     'C08_c': ('C08', {'C08': '28/31', 'C14': '17/18'}, 'as built'),
     'C09_c': ('C09', {'C09': '3/3', 'C15': '5/2'}, 'as built'),
     'C10_c': ('C10', {'C10': '4/4 (extracted literal pattern also changes)', 'C15': '5/4'}, 'as built'),
+    'C11_c': ('C11', {'C11': '3/3'}, 'as built (punctuation-only tokens)'),
+    'C12_c': ('C12', {'C12': '9/14'}, 'MISSED as built: every weight DataArray was C-contiguous; layouts C / Fortran / transposed view / selection of a larger matrix added (also for the initial weights of C07 and C13)'),
+    'C13_c': ('C13', {'C13': '84/78', 'C02': '22/21'}, 'as built (threading, more outcomes than n_outcomes_per_job)'),
+    'C14_c': ('C14', {'C14': '9/8', 'C08': '5/3'}, 'as built (repeated cue, remove_duplicates=False, binary->real)'),
+    'C15_c': ('C15', {'C15': '12/11', 'C10': '4/4'}, 'as built (imap_unordered in filter_event_file)'),
+    'C16_c': ('C16', {'C16': '2/3'}, 'as built (generator input with method=threading reports openmp)'),
+    'C17_c': ('C17', {'C17': '2/1'}, 'as built (real->real wh.wh failing after the chunk directory exists; the leftover is seen while the exception is still referenced)'),
+    'C18_c': ('C18', {'C18': '4/4'}, 'MISSED as built: layouts were C, Fortran, doubly strided, negative strides; layouts with exactly one unit stride added'),
+    'C19_c': ('C19', {'C19': '7/7'}, 'as built (empty sentence with an end tag)'),
+    'C20_c': ('C20', {'C20': '3/3'}, 'as built (integer band width)'),
 }
 
 
